@@ -1,6 +1,11 @@
 #pragma once
 
 #include <crab/analysis/graphs/dominance.hpp>
+
+#include <algorithm>
+#include <iterator>
+#include <unordered_set>
+#include <vector>
 //#include <crab/cfg/basic_block_traits.hpp>
 /*
 
@@ -26,6 +31,64 @@ void control_dep_graph(G g, VectorMap &cdg) {
       auto &cdeps = cdg[v];
       if (std::find(cdeps.begin(), cdeps.end(), kv.first) == cdeps.end()) {
         cdeps.push_back(kv.first);
+      }
+    }
+  }
+
+  // The post-dominance frontiers only know about the blocks from which
+  // the exit block is reachable. A branch with a successor from which
+  // the exit is unreachable (an error sink, a non-terminating region,
+  // or any successor if the graph has no exit block) decides whether
+  // the rest of the program is executed at all: conservatively, every
+  // block reachable from such a branch is control dependent on it.
+  {
+    using node_t = typename G::node_t;
+    std::unordered_set<node_t> reach_exit;
+    std::vector<node_t> worklist;
+    if (g.has_exit()) {
+      reach_exit.insert(g.exit());
+      worklist.push_back(g.exit());
+    }
+    while (!worklist.empty()) {
+      node_t n = worklist.back();
+      worklist.pop_back();
+      for (auto const &p : g.prev_nodes(n)) {
+        if (reach_exit.insert(p).second) {
+          worklist.push_back(p);
+        }
+      }
+    }
+    for (auto it = g.label_begin(), et = g.label_end(); it != et; ++it) {
+      node_t n = *it;
+      auto succs = g.next_nodes(n);
+      if (std::distance(succs.begin(), succs.end()) < 2) {
+        continue;
+      }
+      bool escapes = false;
+      for (auto const &s : succs) {
+        escapes |= (reach_exit.find(s) == reach_exit.end());
+      }
+      if (!escapes) {
+        continue;
+      }
+      std::unordered_set<node_t> visited;
+      for (auto const &s : succs) {
+        if (visited.insert(s).second) {
+          worklist.push_back(s);
+        }
+      }
+      auto &cdeps = cdg[n];
+      while (!worklist.empty()) {
+        node_t m = worklist.back();
+        worklist.pop_back();
+        if (std::find(cdeps.begin(), cdeps.end(), m) == cdeps.end()) {
+          cdeps.push_back(m);
+        }
+        for (auto const &s : g.next_nodes(m)) {
+          if (visited.insert(s).second) {
+            worklist.push_back(s);
+          }
+        }
       }
     }
   }
